@@ -244,7 +244,20 @@ func (vc *VC) call(fr *Frame, st *State, ins ssa.Instruction, cc *ssa.CallCommon
 				setRes(args[0]) // fluent setters return their receiver
 				return
 			}
-			setRes(vc.freshVal(st, "dec!"+shortName(full), resType))
+			res := vc.freshVal(st, "dec!"+shortName(full), resType)
+			if full == "(*time.Time).UnmarshalBinary" && tgt.P != nil && len(args) > 1 && args[1].T.T != nil {
+				// what a successful decode stores is a function of the bytes decoded (timedec, uninterpreted):
+				// the zone offset is part of the encoding, so is it of the value
+				ts := vc.sortOf(tgt.P.Typ)
+				vc.declTimeDec(ts)
+				vc.needBytes = true
+				sl := args[1].T
+				arr := tSelect(vc.heapGet(st.heap, vc.arrComp(types.Typ[types.Uint8])), mk("(sl-ref "+sl.S+")", sortRef))
+				bs := vc.bytesOf(arr, mk("(sl-off "+sl.S+")", vc.idxSort()), mk("(sl-len "+sl.S+")", vc.idxSort()))
+				dec := mk("(timedec "+bs.S+")", ts)
+				vc.assume(st, tImp(tEq(res.T, vc.zeroOfSort(res.T.T, nil)), tEq(vc.loadPlace(st, tgt.P), dec)))
+			}
+			setRes(res)
 			return
 		}
 	}
@@ -1121,4 +1134,13 @@ func (vc *VC) resolveTypeExpr(env *SpecEnv, s string) types.Type {
 		return b
 	}
 	return vc.lookupTypeByKey(env, s)
+}
+
+// declTimeDec declares the uninterpreted decoding function of time.Time values (after the sort of time.Time).
+func (vc *VC) declTimeDec(ts *Sort) {
+	if vc.timeSort != nil {
+		return
+	}
+	vc.timeSort = ts
+	vc.sortDecls = append(vc.sortDecls, fmt.Sprintf("(declare-fun timedec (Bytes) %s)", ts.Name))
 }
